@@ -410,13 +410,15 @@ def native_replay(scratch, target, unit, test_code, test_name, logdir, extra=())
     cmd = ["cargo", "kani", "playback", "-p", "serde_avro_fast", "-Z", "concrete-playback"] + \
           [x for x in extra if not x.startswith("CBMC:")] + \
           ["--", test_name, "--nocapture"]
-    rc, out, wall, _ = run_cmd(cmd, scratch, env={"CARGO_TARGET_DIR": target + "-playback"}, timeout=900,
+    rc, out, wall, _ = run_cmd(cmd, scratch, env={"CARGO_TARGET_DIR": target + f"-playback-{os.getpid()}"}, timeout=900,
                                logfile=os.path.join(logdir, f"playback-{test_name}.log"))
     ran = re.search(r"running (\d+) test", out)
     n_ran = int(ran.group(1)) if ran else 0
-    failed_natively = rc != 0 and ("FAILED" in out or "panicked" in out or "SIG" in out or "overflow" in out)
-    return {"rc": rc, "ran": n_ran, "failed_natively": bool(failed_natively and n_ran > 0 or
-                                                          (rc != 0 and "stack overflow" in out)),
+    compiled = n_ran > 0
+    test_failed = bool(re.search(r"^test .* \.\.\. FAILED", out, re.M) or re.search(r"test result: FAILED", out))
+    aborted = compiled and rc != 0 and bool(re.search(r"stack overflow|SIGSEGV|SIGABRT|signal: \d+", out))
+    return {"rc": rc, "ran": n_ran, "failed_natively": bool(compiled and (test_failed or aborted)),
+            "build_failed": not compiled,
             "tail": out[-3000:], "wall_s": wall}
 
 
@@ -693,7 +695,7 @@ def run_property(pid, tier, repo=REPO, keep=False, quiet_evidence=False, record_
     finally:
         if not keep:
             shutil.rmtree(scratch, ignore_errors=True)
-            shutil.rmtree(target + "-playback", ignore_errors=True)
+            shutil.rmtree(target + f"-playback-{os.getpid()}", ignore_errors=True)
     # ---------------- evidence + verdict
     # a harness pinned to a recorded open finding is reported (KNOWN-FINDING) but is not counted
     # among the obligations of the proof claim
@@ -854,8 +856,11 @@ def replay(pid, path):
         nr = native_replay(scratch, target, u, rec["playback_test"], rec["playback_test_name"], logdir)
     finally:
         shutil.rmtree(scratch, ignore_errors=True)
-        shutil.rmtree(target + "-playback", ignore_errors=True)
+        shutil.rmtree(target + f"-playback-{os.getpid()}", ignore_errors=True)
     log(nr["tail"][-1500:])
+    if nr.get("build_failed"):
+        log(f"UNDECIDED property={pid} obligation=replay reason=the replay test could not be built against the current tree")
+        return 2
     if nr["failed_natively"]:
         log(f"VIOLATION property={pid} replay={path}")
         return 1
